@@ -1,7 +1,7 @@
 (** C15 — Reader-to-matcher hand-off is exactly-once; header lines are never candidates; the lock
     admits one holder.  Statements only.  Pool and matcher are those of the pipeline transition
     system (Model/Pipeline.v); the lock is Model/SpinLock.v. *)
-From SkimV Require Import Common.Base Model.Pipeline Proof.Pipeline Model.SpinLock Proof.SpinLock.
+From SkimV Require Import Common.Base Gen.PipelineOrder Model.PipelineOrder Model.Pipeline Proof.Pipeline Model.SpinLock Proof.SpinLock.
 
 (** In every reachable state: the slices handed out by `take` since the last reset/clear are
     contiguous from position 0 up to the taken mark (none skipped, none handed out twice, in
@@ -53,6 +53,15 @@ Theorem c15_no_lost_update : forall n sched s,
   data s = completed s /\ (forall i v, nth_error (thr s) i = Some (TRead v) -> v = data s).
 Proof. exact no_lost_update. Qed.
 Print Assumptions c15_no_lost_update.
+
+
+(** the code still has the skeleton the transition system stands for: in the pool, the matcher's take and the lock, the
+    shared-state operations extracted from the Rust sources on this run (Gen/PipelineOrder.v) are
+    the ones, in the order, that the model's steps were written for (Model/PipelineOrder.v) *)
+Theorem c15_code_skeleton :
+  same_rows c15_rows code_order model_order = true.
+Proof. vm_compute. reflexivity. Qed.
+Print Assumptions c15_code_skeleton.
 
 (** Non-vacuity: three header lines reserved across two chunks (2 + 3 items), two takes. *)
 Definition ex_mp (qq : N) (x : item) : bool := true.
